@@ -3,8 +3,15 @@
    clauses of the property statement, each for all operands / trees / environments. *)
 From Flocq Require Import Core BinarySingleNaN.
 Require Import ZArith NArith Bool List Arith Reals. Import ListNotations.
-Require Import F64 Dec Types Generic Lang LangLaws.
+Require Import F64 Dec Types Generic Lang LangLaws Spec SpecFacts.
 Notation ev E e := (fst (eval_t E e)).
+
+(* the language definition as rules (Spec.v: literals, variables, arrays and calls left to right stopping at the first failure, unary,
+   strict binary operators, and / or with short circuit and "undefined = empty", = / <> with "undefined = empty of the other side",
+   the conditional) - and the extracted interpreter computes exactly the derivable results AND traces, for every tree and environment *)
+Theorem C03_eval_refines_spec : forall E e r t, Spec.Ev E e r t <-> eval_t E e = (r, t).
+Proof. exact Ev_iff_eval_t. Qed.
+Print Assumptions C03_eval_refines_spec.
 
 (* IEEE-754 double arithmetic; div truncates toward zero; mod is the exact C fmod *)
 Theorem C03_arith_is_ieee : forall x y,
